@@ -1,6 +1,6 @@
 """C06 — a reaction's result does not depend on its batch context.
 
-(a) E1: all ordered sub-batches of size 1..3 of a 14-reaction base set (one reaction per
+(a) E1: all ordered sub-batches of size 1..3 of a 16-reaction base set (one reaction per
     pipeline path) and the full set under every batch size; rows compared with the
     alone-run rows; statistics of a batched run = key-wise sum of its batches' statistics,
     equal for every partition.
@@ -41,6 +41,8 @@ B06 = [
     "Oc1ccccc1O>>O=C1C=CC=CC1=O.OO",                       # rule-based, reactant side imputed, a given OO
     "CC=O.CC=O>>CC(O)CC=O",                                # input-balanced, a repeated molecule
     "CC=O>>CCO",                                           # rule-based, the same molecule once
+    "ClCCCl.[O-]CC[O-]>>C1COCCO1",                         # rule-based: missing {Cl:2, Q:-2}
+    "CC=CC>>CC(Cl)C(Cl)C",                                 # rule-based: missing {Cl:2} - same atoms, no charge
 ]
 EXTRA = "CCN(CC)CC.CC(=O)Cl.OCc1ccccc1>>CC(=O)OCc1ccccc1"  # mcs with catalyst pass-through
 SCHED_BATCHES = [
@@ -228,7 +230,7 @@ def conformance_case(job):
 def covering_triples():
     n = len(B06)
     out = []
-    for a, b in ((1, 2), (2, 5), (3, 7), (4, 9), (5, 1), (7, 3), (11, 6)):
+    for a, b in ((1, 2), (2, 5), (3, 7), (4, 9), (5, 1), (7, 3), (11, 6), (15, 8)):
         for i in range(n):
             out.append((B06[i], B06[(i + a) % n], B06[(i + b) % n]))
     return out
@@ -310,12 +312,12 @@ def run(tier, seed):
         "real_joblib_worker_counts": list(ks),
         "evaluations": n_exec + len(subs) + len(pj) + len(reps),
         "distinct_nontrivial": len(subs) + n_exec,
-        "rule": "(a) every ordered sub-batch of size 1..2{} of the 14-reaction base set, the 15-reaction set under every "
+        "rule": "(a) every ordered sub-batch of size 1..2{} of the 16-reaction base set, the 17-reaction set under every "
                 "batch size; (b) for 3 batches of 3 rows every Parallel call x every non-default task order "
                 "(all 3! orders) with <= {} order deviation(s) x isolation {}; (c) real joblib with n_jobs in {}; "
                 "(d) repeated runs on one instance.  distinct_outcomes = distinct row tables seen over all schedules "
                 "(1 per batch and isolation means no schedule changed anything).".format(
-                    " and every triple" if thorough else " and 98 triples of a cyclic covering design", bound, list(isos), list(ks)),
+                    " and every triple" if thorough else " and 128 triples of a cyclic covering design", bound, list(isos), list(ks)),
         "exhaustive": True,
     }
     res.assumptions = [
